@@ -1090,6 +1090,39 @@ Proof.
   pose proof (Z.div_mod window 2 ltac:(lia)). fold half. unfold half. lia.
 Qed.
 
+(* scale invariance on polynomial data: rescaling the abscissae x -> c x (c <> 0) leaves the output
+   unchanged, because the same samples are a polynomial of the same degree in the new variable *)
+Fixpoint pscale (q : list R) (d : R) : list R :=
+  match q with [] => [] | q0 :: q' => q0 :: map (rmul d) (pscale q' d) end.
+
+Lemma pscale_length q d : length (pscale q d) = length q.
+Proof. induction q as [|q0 q IH]; [reflexivity|]. cbn [pscale length]. now rewrite map_length, IH. Qed.
+
+Lemma pscale_spec q d t : pev (pscale q d) t = pev q (rmul d t).
+Proof.
+  induction q as [|q0 q IH]; [reflexivity|]. cbn [pscale]. rewrite !pev_cons, pev_scal, IH. ring.
+Qed.
+
+Theorem savgol_scale_invariant (window polynom : Z) (x q : list R) (c : R) :
+  c <> rO ->
+  window mod 2 = 1 -> 0 <= polynom < window -> window < Z.of_nat (length x) ->
+  length q = Z.to_nat (polynom + 1) ->
+  let half := Z.to_nat (window / 2) in
+  let xs := map (rmul c) x in
+  (forall i, (half <= i < length xs - half)%nat ->
+     let ts := map (fun xx => rsub xx (nth i xs rO)) (firstn (2 * half + 1) (skipn (i - half) xs)) in
+     left_inverse (Z.to_nat (polynom + 1)) (minv (nmat (Z.to_nat (polynom + 1)) ts))
+                  (nmat (Z.to_nat (polynom + 1)) ts)) ->
+  savgol R rO rI radd rmul rsub minv window polynom (map (rmul c) x) (map (pev q) x) = inr (map (pev q) x).
+Proof.
+  intros Hc Hodd Hp Hn Hq half xs Hinv.
+  assert (E : map (pev q) x = map (pev (pscale q (rdiv rI c))) xs).
+  { unfold xs. rewrite map_map. apply map_ext. intros t. rewrite pscale_spec. f_equal. field. exact Hc. }
+  rewrite E. apply savgol_public; try assumption.
+  - unfold xs. now rewrite map_length.
+  - now rewrite pscale_length.
+Qed.
+
 End FieldProofs.
 Unset Default Proof Using.
 
